@@ -110,9 +110,69 @@ def run_c20(drv, prop, tier, seed):
     return outcome
 
 
+MIRI_PROPS = {"C02", "C03", "C05"}
+
+
+def miri_lane(drv, prop, seed, shards=8):
+    """Auxiliary sanitizer lane (thorough tier): the same monitors under the Miri interpreter, which
+    checks the unsafe code of num-bigint / std that the API reaches for undefined behaviour.
+    Returns (coverage dict, violations, inconclusive_reason)."""
+    import subprocess
+    env = drv.env_for_build({"MIRIFLAGS": "-Zmiri-disable-isolation"})
+    target = os.path.join(drv.HARNESS, "target-miri" + drv.ALT_SUFFIX)
+    base = ["cargo", "+nightly", "miri", "run", "--offline", "--quiet", "--target-dir", target]
+    if drv.ALT_REPO:
+        base += ["--config", 'paths=["%s"]' % drv.ALT_REPO]
+    procs = []
+    for i in range(shards):
+        out = os.path.join(drv.RUN, "%s.miri%d.json" % (prop, i))
+        if os.path.exists(out):
+            os.remove(out)
+        cmd = base + ["--", "run", prop, "--tier", "miri", "--seed", str(seed * 1000 + i), "--out", out, "--threads", "1", "--profile", "miri"]
+        procs.append((out, subprocess.Popen(cmd, cwd=drv.HARNESS, env=env, stdout=subprocess.PIPE, stderr=subprocess.PIPE, text=True)))
+    cov = {"shards": shards, "cases": 0, "evaluations": 0, "undefined_behaviour_reports": 0}
+    violations = []
+    reason = None
+    for i, (out, p) in enumerate(procs):
+        try:
+            _o, err = p.communicate(timeout=3 * 3600)
+        except subprocess.TimeoutExpired:
+            p.kill()
+            reason = "miri-watchdog"
+            continue
+        if "Undefined Behavior" in err:
+            cov["undefined_behaviour_reports"] += 1
+            block = err[err.index("Undefined Behavior") - 40:][:1500]
+            violations.append({"sig": "%s/miri-undefined-behaviour" % prop, "case": ["miri-shard", str(seed * 1000 + i)], "detail": block})
+        elif p.returncode != 0 or not os.path.exists(out):
+            reason = "miri-run-failed: " + err[-300:].replace("\n", " ")
+        if os.path.exists(out):
+            with open(out) as f:
+                r = json.load(f)
+            cov["cases"] += r.get("cases", 0)
+            cov["evaluations"] += r.get("evaluations", 0)
+            for v in r.get("violations", []):
+                violations.append(v)
+    return cov, violations, reason
+
+
 def run_property(drv, prop, tier, seed):
     if prop == "C20":
         return run_c20(drv, prop, tier, seed)
+    if prop in MIRI_PROPS and tier == "thorough":
+        outcome = _standard(drv, prop, tier, seed)
+        cov, viol, reason = miri_lane(drv, prop, seed)
+        outcome.setdefault("extra_coverage", {})["miri_lane"] = cov
+        outcome["extra_evaluations"] = outcome.get("extra_evaluations", 0) + cov["evaluations"]
+        for v in viol:
+            outcome["violations"].append((v, "miri"))
+        if reason and not outcome.get("inconclusive"):
+            outcome["inconclusive"] = reason
+        return outcome
+    return _standard(drv, prop, tier, seed)
+
+
+def _standard(drv, prop, tier, seed):
     budget = EVENT_BUDGET[tier] if prop in recheck.CHECKERS else 0
     if prop in PRIMARY_OFFLINE:
         budget = 50_000_000  # the offline checker is the oracle: log every case
